@@ -145,7 +145,15 @@ pub fn case(ch: &mut Choices, ctx: &CaseCtx) -> CaseOut {
     let big = ctx.tier_thorough;
     // prelude
     let pre = ext::generate(ch, &ext::ExtOpts { meta: true, failing: false, max_items: 3, backbone_nodes: 12 });
-    let p = ext::generate(ch, &ext::ExtOpts { meta: true, failing: true, max_items: if big { 10 } else { 6 }, backbone_nodes: if big { 60 } else { 25 } });
+    let mut p = ext::generate(ch, &ext::ExtOpts { meta: true, failing: true, max_items: if big { 10 } else { 6 }, backbone_nodes: if big { 60 } else { 25 } });
+    if ch.chance(1, 5) {
+        // "all programs": a token soup over the whole live dictionary and every literal type (mostly failing early,
+        // but every drive mode must fail the same way)
+        let n = 1 + ch.below(14);
+        let toks: Vec<String> = (0..n).map(|_| crate::props::c08::soup_token(ch)).collect();
+        p.source = toks.join(" ");
+        p.features = vec!["token-soup"];
+    }
     let mut base = xs::fresh();
     base.intercept_output(true).unwrap();
     base.set_insn_limit(Some(INSN_LIMIT)).unwrap();
@@ -191,7 +199,7 @@ pub fn case(ch: &mut Choices, ctx: &CaseCtx) -> CaseOut {
         }
         // recording must not change anything within one drive mode either (already implied by the chain above)
         let kinds = p.features.len();
-        out.nontrivial = obs[0].1.insns >= 10 && kinds >= 3;
+        out.nontrivial = (obs[0].1.insns >= 10 && kinds >= 3) || (p.features.contains(&"token-soup") && obs[0].1.insns >= 3);
         if failing_build {
             out.class("rejected-at-build");
         } else if failing {
